@@ -121,6 +121,7 @@ class Interp:
         self.sops = []      # [(coq sop, fails)]
         self.ws = {}        # w -> dict(keys, mode, start, last, pend, fresh)
         self.stamps = {}    # key -> set of stamps ever written / deleted bounds (probe material)
+        self.tf_dirty = set()   # channels whose last commit is in memory only because its index Truncate failed
 
     def value(self, key, s):
         return s if self.ch[key]["index"] == 0 else s * 1000 + key
@@ -228,6 +229,7 @@ class Interp:
                     self.emit(k, "DCommit %d %s 0" % (w, cZ(stamps[-1] + 1)))
             self.commit_doms(w, stamps)
             self.close_writer(w)
+            self.tf_dirty.add(ft["key"])
             self.sops.append(("SWriteTF %d %s %d" % (w, clZ(stamps), ft["key"]), True))
             return
         if ft is not None:
@@ -255,6 +257,8 @@ class Interp:
             self.stamps[k].update(stamps)
             if wr["mode"] != "manual":
                 self.emit(k, "DCommit %d %s 0" % (w, cZ(stamps[-1] + 1)))
+                if wr["mode"] == "always":
+                    self.tf_dirty.discard(k)
         if wr["mode"] == "manual":
             wr["pend"].extend(stamps)
         else:
@@ -269,6 +273,7 @@ class Interp:
         if wr["mode"] == "manual" and wr["pend"]:
             for k in wr["keys"]:
                 self.emit(k, "DCommit %d %s 0" % (w, cZ(wr["last"] + 1)))
+                self.tf_dirty.discard(k)
             self.commit_doms(w, wr["pend"])
             wr["pend"] = []
         self.sops.append(("SCommit %d" % w, False))
@@ -278,6 +283,14 @@ class Interp:
         for k in wr["keys"]:
             self.emit(k, "DCloseW %d" % w)
             self.ch[k]["writer"] = None
+            if wr["mode"] == "lazy":
+                self.tf_dirty.discard(k)
+
+    def need_persisted(self):
+        # DB.Close does not flush the index: a commit left in memory by a failed index Truncate is gone
+        # after a restart. Scripts restart / delete / collect only once a later persist has covered it.
+        if self.tf_dirty:
+            raise Bad("restart or maintenance while a commit is in memory only")
 
     def op_close(self, o):
         w = o["w"]
@@ -302,6 +315,7 @@ class Interp:
         return "[" + "; ".join(rows) + "]"
 
     def op_delete(self, o):
+        self.need_persisted()
         keys, a, b = o["keys"], o["a"], o["b"]
         for k in keys:
             if k not in self.ch or not self.ch[k]["live"]:
@@ -351,6 +365,7 @@ class Interp:
         self.sops.append(("SDelete %s %s %s" % (clN(keys), cZ(a), cZ(b)), False))
 
     def op_gc(self, o):
+        self.need_persisted()
         for k in self.order:
             if self.ch[k]["live"]:
                 self.emit(k, "DGC")
@@ -359,12 +374,14 @@ class Interp:
     def op_reopen(self, o):
         for w in sorted(self.ws):
             self.close_writer(w)
+        self.need_persisted()
         for k in self.order:
             if self.ch[k]["live"]:
                 self.emit(k, "DReopen")
         self.sops.append(("SReopen", False))
 
     def op_delchan(self, o):
+        self.need_persisted()
         keys = o["keys"]
         for k in keys:
             if k not in self.ch or not self.ch[k]["live"]:
